@@ -58,6 +58,7 @@ func c09B1(r *core.R) {
 	info := m.info
 	br := f.blockReader
 	bru := m.byDecl[br.Obj]
+	c09ReaderConsumption(r, m)
 	// the reads: io.ReadFull calls in the block reader and the helpers it calls; the buffer expressed at the block reader's level
 	type read struct {
 		call *ast.CallExpr
